@@ -291,9 +291,10 @@ def _run_chunk(cmd, cin, cout, env, timeout):
         done = sum(1 for _ in open(po)) if os.path.exists(po) else 0
         if done >= len(lines):
             return pieces, crashes, errs
-        if len(crashes) >= 25:
-            raise Broken("driver keeps dying in process (more than 25 times in one chunk): %s" % err[-800:])
         crashes.append((int(lines[done].split()[0]), err[-3000:]))
+        if len(crashes) >= 12:
+            # the process keeps dying: enough evidence, the rest of this chunk is not run
+            return pieces, crashes, errs
         n += 1
         cur = "%s.rest%d" % (cin, n)
         with open(cur, "w") as f:
@@ -327,6 +328,11 @@ def run_driver_replay(cmd, vin, vout, env=None, timeout=1500, par=None):
     return pieces, crashes, errs
 
 
+def crash_headline(err):
+    m = re.search(r"(ERROR: AddressSanitizer: [^\n]*|runtime error: [^\n]*|Invalid (?:read|write) of size \d+|SUMMARY: [^\n]*)", err or "")
+    return m.group(1)[:200] if m else "process died"
+
+
 def read_results(pieces, crashes):
     """id -> (st, size, bytes|None, inv); crashed in-process vectors get st 'X'."""
     res = {}
@@ -338,8 +344,8 @@ def read_results(pieces, crashes):
                     continue
                 b = bytes.fromhex(t[3]) if t[1] == "R" and t[3] != "-" else b""
                 res[int(t[0])] = (t[1], int(t[2]), b, t[4])
-    for cid, _ in crashes:
-        res[cid] = ("X", 0, b"", "-")
+    for cid, err in crashes:
+        res[cid] = ("X", 0, b"", "-", crash_headline(err))
     return res
 
 
@@ -347,12 +353,13 @@ def judge(tab, k, cuts, real):
     """-> (verdict, defect, text); verdict in ok / drift / known / violation"""
     u, fin, fout = k
     pin, ok, out = tab.ref[k]
-    st, size, rb, inv = real
+    st, size, rb, inv = real[:4]
     match_ref = (st == "N" and not ok) or (st == "R" and ok and norm(fout, out) == norm(fout, rb))
     law_bad = st in "AX" or (st == "R" and inv in "0a")
     if match_ref and not law_bad:
         return "ok", None, ""
-    what = {"A": "result object of absurd size %d" % size, "X": "crash / sanitizer report",
+    what = {"A": "result object of absurd size %d" % size,
+            "X": "crash / sanitizer report" + (" (%s)" % real[4] if len(real) > 4 else ""),
             "N": "NULL", "R": "%d bytes %s" % (len(rb), rb.hex()[:64])}[st]
     if st == "R" and inv in "0a":
         what += " which the inverse transform " + ("rejects" if inv == "0" else "turns into an absurd object")
@@ -393,6 +400,9 @@ def replay_vectors(v, tab, drv, d, tag, env=None):
     for i, (k, cuts) in enumerate(plan):
         real = res.get(i)
         if real is None:
+            if crashes:
+                stats["not_run_after_repeated_crashes"] = stats.get("not_run_after_repeated_crashes", 0) + 1
+                continue
             raise Broken("driver produced no result for vector %d" % i)
         st = real[0]
         if st == "G":
